@@ -112,6 +112,8 @@ def outcome_mismatch(obs, res):
     exp_code = 0 if res.ok else 103
     if obs.timeout:
         return "timeout"
+    if obs.stack_overflow:
+        return "stack overflow on a program whose documented evaluation is shallow (model: <= 40 nested calls / levels)"
     if obs.crashed:
         return "crash (exit %s): %s" % (obs.code, obs.err.decode("utf-8", "replace")[-300:])
     if obs.code != exp_code:
